@@ -269,17 +269,21 @@ func H_jsStruct(t int, es6 bool) {
 				if i < len(ns) && ns[i] != '.' {
 					continue
 				}
-				decl := "if (typeof " + ns[:i] + " == 'undefined') { "
-				if last < 0 {
-					decl += "var "
-				}
-				decl += ns[:i] + " = {}; }\n"
+				// an assignment "<prefix> = {}" (whatever guards or declares it) as a whole token
+				decl := ns[:i] + " = {}"
 				at := -1
 				for k := 0; k+len(decl) <= firstFn; k++ {
-					if out[k:k+len(decl)] == decl {
-						at = k
-						break
+					if out[k:k+len(decl)] != decl {
+						continue
 					}
+					if k > 0 {
+						p := out[k-1]
+						if p == '.' || p == '_' || p == '$' || p >= '0' && p <= '9' || p >= 'a' && p <= 'z' || p >= 'A' && p <= 'Z' {
+							continue
+						}
+					}
+					at = k
+					break
 				}
 				verifAssert(at >= 0, "a namespace object is not declared before the functions that live in it: "+ns[:i])
 				verifAssert(at > last, "namespace objects are not declared outermost first")
